@@ -22,8 +22,9 @@ from ..symc import SymC
 OK_EXC = (ValueError, TypeError, NotImplementedError)
 
 
-def _expect_raises(rec, name, sig, fn, when="call"):
-    """fn() must raise one of OK_EXC. Records obligation."""
+def _expect_raises(rec, name, sig, fn, when="call", must=False):
+    """fn() must raise one of OK_EXC. Records the obligation; with must=True a silent acceptance is recorded as a violation
+    (a UserWarning "cannot confirm ... is zero" for sympy inputs counts as not silent, by the library's design)."""
     try:
         with warnings.catch_warnings(record=True) as w:
             warnings.simplefilter("always")
@@ -42,7 +43,13 @@ def _expect_raises(rec, name, sig, fn, when="call"):
             raise
         rec.direct_violation(name, sig + f":wrong-exception-{type(e).__name__}", {"exception": f"{type(e).__name__}: {e}", "where": where})
         return None
-    return out, [str(x.message) for x in w]
+    msgs = [str(x.message) for x in w]
+    if must:
+        if any("Cannot confirm" in m_ for m_ in msgs):
+            rec.discharged(f"{name}: not rejected but warned ({msgs[0][:60]}...)", "confirmed", warned=True)
+        else:
+            rec.direct_violation(f"{name}: accepted silently", sig + ":not-rejected", {"note": "no exception was raised for an ill-posed input", "warnings": msgs[:2]})
+    return out, msgs
 
 
 # ------------------------------------------------------------------------------------------------
@@ -96,7 +103,7 @@ def c20_symbolic(cfg):
             def call():
                 return block_diagonalize([H0, H1], subspace_eigenvectors=[np.eye(P.N)[:, P.off[k] : P.off[k + 1]] for k in range(P.nb)], hermitian=herm)
 
-        _expect_raises(rec, f"H_0 block {cfg['pos']} non-zero ({fmt})", sig, call)
+        _expect_raises(rec, f"H_0 block {cfg['pos']} non-zero ({fmt})", sig, call, must=True)
         return rec
 
     if kind == "shared_energy":
@@ -136,6 +143,15 @@ def c20_symbolic(cfg):
         if res is not None:
             rec.direct_violation(f"shared energy between blocks {i},{j} not rejected", sig + ":not-rejected",
                                  {"returned": repr(res[0])[:200], "note": "U element computed although the coupled blocks share an unperturbed energy"})
+            return rec
+        # "never answered with silent garbage": asking again (same element, the other outputs, a higher order, the transposed
+        # block) after the rejection must be rejected again - the failed evaluation may not leave the pair marked as validated
+        for w_, idx_ in ((1, (lo, hi, 1)), (2, (lo, hi, 1)), (1, (lo, hi, 2)), (0, (lo, lo, 2)), (1, (hi, lo, 1))):
+            again = _expect_raises(rec, f"{['H_tilde', 'U', 'U_inv'][w_]}{list(idx_)} requested after the rejection", sig, lambda: series[w_][idx_], when="repeated request")
+            if again is not None:
+                rec.direct_violation(f"shared energy between blocks {i},{j}: accepted on a later request", sig + ":accepted-after-rejection",
+                                     {"request": [w_, *idx_], "returned": repr(again[0])[:200]})
+                break
         return rec
 
     if kind == "mask_on_degenerate_pair":
@@ -161,7 +177,41 @@ def c20_symbolic(cfg):
         def call():
             return block_diagonalize(BlockSeries(eval=Heval, shape=(len(sizes),) * 2, n_infinite=1), fully_diagonalize={b: mask}, hermitian=herm)
 
-        _expect_raises(rec, f"mask eliminates a degenerate pair in block {b}", sig, call)
+        _expect_raises(rec, f"mask eliminates a degenerate pair in block {b}", sig, call, must=True)
+        return rec
+
+    if kind == "bad_mask_among_several":
+        # several masks in the dict, exactly one of them is invalid (asymmetric / on a degenerate pair / not an ndarray)
+        sizes = cfg["sizes"]
+        b = cfg["pos"][0]
+        N = sum(sizes)
+        off = np.cumsum([0] + sizes)
+        spec = [float(2 ** k) for k in range(N)]
+        how = cfg["how"]
+        if how == "degenerate":
+            spec[off[b] + 1] = spec[off[b]]
+        h0b = [np.diag(spec[off[k] : off[k + 1]]) for k in range(len(sizes))]
+        H1 = symc.hermitian("h_", N) if herm else symc.general("h_", N)
+        masks = {}
+        order = cfg["order"]
+        for blk in order:
+            m = np.zeros((sizes[blk], sizes[blk]), dtype=bool)
+            if sizes[blk] >= 2:
+                m[0, 1] = m[1, 0] = True
+            if blk == b:
+                if how == "asymmetric":
+                    m[1, 0] = False
+                elif how == "not_ndarray":
+                    m = m.tolist()
+            masks[blk] = m
+
+        def Heval(a, c, n):
+            if n == 0:
+                return h0b[a] if a == c else zero
+            return np.array(H1[off[a] : off[a + 1], off[c] : off[c + 1]], dtype=object) if n == 1 else zero
+
+        _expect_raises(rec, f"{how} mask for block {b} among masks for blocks {order}", sig + f":{how}",
+                       lambda: block_diagonalize(BlockSeries(eval=Heval, shape=(len(sizes),) * 2, n_infinite=1), fully_diagonalize=masks, hermitian=herm), must=True)
         return rec
 
     if kind == "asymmetric_mask_hermitian":
@@ -181,7 +231,7 @@ def c20_symbolic(cfg):
             return np.array(H1[off[a] : off[a + 1], off[c] : off[c + 1]], dtype=object) if n == 1 else zero
 
         _expect_raises(rec, f"asymmetric mask in Hermitian mode, block {b}", sig,
-                       lambda: block_diagonalize(BlockSeries(eval=Heval, shape=(len(sizes),) * 2, n_infinite=1), fully_diagonalize={b: mask}, hermitian=True))
+                       lambda: block_diagonalize(BlockSeries(eval=Heval, shape=(len(sizes),) * 2, n_infinite=1), fully_diagonalize={b: mask}, hermitian=True), must=True)
         return rec
 
     if kind == "bad_eigenvectors":
@@ -209,7 +259,7 @@ def c20_symbolic(cfg):
             ham = [H0, H1]
         if cfg.get("pairs"):
             vecs = [(v, v) for v in vecs]
-        _expect_raises(rec, f"eigenvectors {how} ({fmt})", sig + f":{how}:{fmt}", lambda: block_diagonalize(ham, subspace_eigenvectors=vecs, hermitian=herm))
+        _expect_raises(rec, f"eigenvectors {how} ({fmt})", sig + f":{how}:{fmt}", lambda: block_diagonalize(ham, subspace_eigenvectors=vecs, hermitian=herm), must=True)
         return rec
 
     if kind == "nonhermitian_symbolic_term":
@@ -255,7 +305,7 @@ def c20_symbolic(cfg):
             "mask_not_ndarray": lambda: block_diagonalize([H0, H1], subspace_indices=[0, 1, 1], fully_diagonalize={1: [[0, 1], [1, 0]]}),
             "wrong_type": lambda: block_diagonalize("not a hamiltonian"),
         }
-        _expect_raises(rec, which, sig + ":" + which, calls[which])
+        _expect_raises(rec, which, sig + ":" + which, calls[which], must=True)
         return rec
 
     raise KeyError(kind)
@@ -403,6 +453,17 @@ def configs(tier):
                         S(kind="bad_eigenvectors", hermitian=herm, sizes=sizes, pos=[b], how=how, format=fmt)
                     if not herm:
                         S(kind="bad_eigenvectors", hermitian=False, sizes=sizes, pos=[b], how=how, format="numpy", pairs=True)
+    import itertools as _it
+
+    for herm in (True, False):
+        for sizes in ([2, 2], [2, 1, 2], [2, 2, 2]):
+            blocks2 = [k for k, sz in enumerate(sizes) if sz >= 2]
+            for b in blocks2:
+                for order in _it.permutations(blocks2):
+                    for how in ("asymmetric", "degenerate", "not_ndarray"):
+                        if how == "asymmetric" and not herm:
+                            continue
+                        S(kind="bad_mask_among_several", hermitian=herm, sizes=sizes, pos=[b], order=list(order), how=how)
     for order in (1, 2, 3):
         for how in ("real_asym", "complex_diag"):
             S(kind="nonhermitian_symbolic_term", hermitian=True, order=order, how=how)
